@@ -7,6 +7,7 @@ mod watcher;
 mod quit;
 mod fsreal;
 mod spawn;
+mod reconf;
 
 use std::collections::BTreeMap;
 
@@ -188,9 +189,11 @@ fn c02_scenario(rng: &mut Rng, i: usize) -> Synth {
 		}
 		4 => {
 			// urgent into a half-filled long window, or urgent as the very first event of its cycle
-			s.throttle_ms = *rng.pick(&[400u64, 2000]);
+			// ... or into a window that never ends by itself (`Duration::MAX`, or a day): nothing may be handed over
+			// before the urgent event, which then brings everything collected with it
+			s.throttle_ms = *rng.pick(&[400u64, 2000, 2000, synth::UNBOUNDED_MS, 86_400_000]);
 			let urgent = ev(Priority::Urgent, *rng.pick(&[Verdict::Reject, Verdict::Error, Verdict::Pass]), 100_000);
-			s.producers = if rng.chance(1, 2) {
+			s.producers = if rng.chance(1, 2) || s.throttle_ms >= 86_400_000 {
 				vec![vec![ev(Priority::Normal, Verdict::Pass, 0), ev(Priority::Low, Verdict::Pass, 20_000), urgent]]
 			} else {
 				vec![vec![urgent, ev(Priority::Normal, Verdict::Pass, 30_000)]]
@@ -302,6 +305,12 @@ fn main() {
 			}
 			let mut k = 0usize;
 			while !budget.exhausted() {
+				if k % 5 == 3 {
+					// the filterer and the handler replaced while events flow
+					reconf::run_one(&args, &mut rng, &mut rep, k);
+					k += 1;
+					continue;
+				}
 				let mut s = synth::gen_synth(&mut rng, true, !args.thorough() && k % 4 != 0);
 				if k % 7 == 0 {
 					// back pressure: tiny queue, slow handler
